@@ -90,8 +90,14 @@ func gen(prop, tier string, r *Rng, out *bufio.Writer, st *Stats) {
 		genF2F(g, r, tier)
 	case "C06":
 		genQuant(g, r, tier, false)
+		if tier == "thorough" && os.Getenv("VERIF_NO_SWEEP32") == "" {
+			genQuantSweep32(g, false)
+		}
 	case "C07":
 		genQuant(g, r, tier, true)
+		if tier == "thorough" && os.Getenv("VERIF_NO_SWEEP32") == "" {
+			genQuantSweep32(g, true)
+		}
 	case "C08":
 		genC08(g, r, tier)
 		if tier == "thorough" && os.Getenv("VERIF_NO_SWEEP32") == "" {
